@@ -205,9 +205,9 @@ Theorem C09_subjects_build_partial :
          (tg0 : gvk) (rest : list (fieldspec * gvk)) (kvs ekvs : list (string * node)) (es : list node)
          (name_node : node) (cands : list cand) (b : cand),
     (o = PSortNone \/ o = PSortFifo) -> ns <> "" -> Forall tree_wf ents ->
-    acc_list (accumulate nonstr) ents [] = Ok m0 ->
+    Pipeline.acc_list (Pipeline.accumulate nonstr) ents [] = Ok m0 ->
     Forall (fun r => r_needs_hash r = false) m0 ->
-    build nonstr o (PDir name (ns_only ns) ents) = Ok out ->
+    Pipeline.build nonstr o (PDir name (ns_only ns) ents) = Ok out ->
     List.length out = List.length m0 ->
     pipe_rules = Ok rules -> namespace_transform ns m0 = Ok m1 ->
     nth_error m1 i = Some r -> org_id pipe_cs r = Ok org ->
